@@ -21,15 +21,25 @@
 (*                        the RE-ENCODED text, not the received one        *)
 (*   CurveBlindES         ES256/384/512 verification does not check that   *)
 (*                        the key's curve is the one of the algorithm      *)
+(*                        (F19-alg-curve; repaired in the code: the        *)
+(*                        consumers call jwx.ValidateKeyForAlgorithm,      *)
+(*                        FALSE in the descriptive configuration since)    *)
 (*   ApiTokenAnySignature tokenV2 wants >= 1 secure signature, not = 1     *)
 (*   DagAcceptsPrivateJWK ParseTransaction accepts an embedded private key *)
+(*   LdAlgFromHeader      LDProof.Verify takes the verification algorithm  *)
+(*                        from the alg member of the detached JWS header   *)
+(*                        (when it is a supported one) instead of deriving *)
+(*                        it from the resolved key; the raw jws verifier   *)
+(*                        it then runs has no curve check.  FALSE in the   *)
+(*                        code as read; Jose.ldhdr.cfg = TRUE shows which  *)
+(*                        variants such a verifier wrongly accepts         *)
 (*   DagIgnoresExtraSegments  jws.Parse/Verify read the first three        *)
 (*                        dot-separated segments and ignore the rest, the  *)
 (*                        transaction (and its ref) is the whole input     *)
 (***************************************************************************)
 EXTENDS Naturals, Sequences, FiniteSets, TLC, Json
 
-CONSTANTS LenientBase64, CurveBlindES, ApiTokenAnySignature, DagAcceptsPrivateJWK, DagIgnoresExtraSegments, Gen
+CONSTANTS LenientBase64, CurveBlindES, ApiTokenAnySignature, DagAcceptsPrivateJWK, DagIgnoresExtraSegments, LdAlgFromHeader, Gen
 
 Consumers == {"vcjwt", "vpjwt", "jar", "dpop", "apitoken", "dagtx-jwk", "dagtx-kid", "ldproof"}
 Fams == {"p256", "p384", "p521", "ed25519", "rsa"}
@@ -74,6 +84,12 @@ VTab ==
     ("alg-sibling" :> [D EXCEPT !.alg = "sibling", !.signer = "attacker"]) @@
     ("alg-label-only" :> [D EXCEPT !.alg = "sibling", !.sigok = FALSE]) @@
     ("legit-alg-mismatch" :> [D EXCEPT !.alg = "mismatch"]) @@
+    \* the protected header names the algorithm TWICE (the fitting one and the one really used, either order): whichever
+    \* member a parser keeps, the signature was made with an algorithm that does not fit the key
+    ("hdr-dup-alg-mismatch-signed" :> [D EXCEPT !.alg = "mismatch"]) @@
+    \* RSA: a genuine signature by the legitimate key with ANOTHER allowed algorithm that fits the key (PS384/PS512 next to
+    \* PS256): sound wherever the label is on the allow-list; a verifier that derives the algorithm from the key refuses it
+    ("legit-alg-sibling-fit" :> [D EXCEPT !.alg = "sibfit"]) @@
     ("sigs-0" :> [D EXCEPT !.ser = "general", !.nsig = 0, !.signer = "nobody", !.sigok = FALSE]) @@
     ("sigs-2-legit-first" :> [D EXCEPT !.ser = "general", !.nsig = 2]) @@
     ("sigs-2-attacker-first" :> [D EXCEPT !.ser = "general", !.nsig = 2]) @@
@@ -117,6 +133,8 @@ AttackerRef == {"attacker-known", "lookalike"}      \* key references that resol
 \* does the variant exist for this consumer / key family (mirrors the concretiser)
 Applicable(c, f, v) ==
     CASE v \in {"alg-sibling", "legit-alg-mismatch"} -> f # "ed25519"
+      [] v = "hdr-dup-alg-mismatch-signed" -> f \in {"p256", "p384", "p521"}
+      [] v = "legit-alg-sibling-fit" -> f = "rsa"
       [] v = "own-private-key-embedded" -> c \in SelfKeyed
       [] v = "keyalg-disallowed-signed" -> c \in KeyHasMembers /\ f # "ed25519"
       [] v = "keyalg-other-allowed-signed" -> c \in KeyHasMembers /\ f = "rsa"
@@ -136,20 +154,21 @@ LabelAllowed(c, f, a) ==
     CASE a.alg = "fit" -> FitAlg(c, f) \in Allowed(c)
       [] a.alg \in {"none", "mac", "badlabel"} -> FALSE
       [] a.alg = "mismatch" -> f # "rsa"
+      [] a.alg = "sibfit" -> IF c = "apitoken" THEN FALSE ELSE TRUE     \* PS256/PS384 are not on tokenV2's list
       [] OTHER -> TRUE          \* otherfam / sibling: labels taken from the allow-list
 HPEnc == {"h-pad", "p-pad", "h-noncanon", "p-noncanon", "extra-seg"}   \* the received header/payload TEXT is not what was signed
 
-VARIABLES cs, phase, verdict, key
-vars == <<cs, phase, verdict, key>>
+VARIABLES cs, phase, verdict, key, valg     \* valg: where the verifier takes its algorithm from (none | label | key)
+vars == <<cs, phase, verdict, key, valg>>
 A == VTab[cs.variant]
 C == cs.consumer
 F == cs.fam
 
 Init == /\ cs \in {x \in [consumer : Consumers, fam : Fams, variant : Variants] : Applicable(x.consumer, x.fam, x.variant)}
-        /\ phase = "parse" /\ verdict = "none" /\ key = "none"
+        /\ phase = "parse" /\ verdict = "none" /\ key = "none" /\ valg = "none"
 
-Reject == /\ verdict' = "reject" /\ phase' = "done" /\ UNCHANGED <<cs, key>>
-Go(p) == /\ phase' = p /\ UNCHANGED <<cs, verdict, key>>
+Reject == /\ verdict' = "reject" /\ phase' = "done" /\ UNCHANGED <<cs, key, valg>>
+Go(p) == /\ phase' = p /\ UNCHANGED <<cs, verdict, key, valg>>
 
 \* which serialisations / encodings get past the parser of the consumer
 SerOK == \/ A.ser = "compact"
@@ -166,9 +185,14 @@ Parse == /\ phase = "parse"
 Count == /\ phase = "count"
          /\ IF A.nsig = 1 \/ (C = "apitoken" /\ ApiTokenAnySignature /\ A.nsig >= 1) THEN Go("alg") ELSE Reject
 
-\* allow-list on the header label (LDProof.Verify never reads the header)
+\* allow-list on the header label, and the SOURCE of the verification algorithm: the jwx based consumers verify with the
+\* algorithm of the protected header (after the allow-list and the key/algorithm consistency check); LDProof.Verify never
+\* reads the header, it derives the algorithm from the resolved key (crypto.SignatureAlgorithm)
+AlgSource == IF C = "ldproof" /\ ~(LdAlgFromHeader /\ LabelAllowed(C, F, A)) THEN "key" ELSE "label"
 Alg == /\ phase = "alg"
-       /\ IF C = "ldproof" \/ LabelAllowed(C, F, A) THEN Go("key") ELSE Reject
+       /\ IF C = "ldproof" \/ LabelAllowed(C, F, A)
+          THEN /\ phase' = "key" /\ valg' = AlgSource /\ UNCHANGED <<cs, verdict, key>>
+          ELSE Reject
 
 \* where the verification key comes from
 SelectKey ==
@@ -176,22 +200,22 @@ SelectKey ==
     /\ CASE C = "dpop" ->
               IF A.keyhdr \in {"jwk-private", "jwk-private-own"} THEN Reject      \* jwkIsPrivateKey
               ELSE /\ key' = (IF A.keyhdr = "jwk-attacker" THEN "attacker" ELSE "legit")
-                   /\ phase' = "verify" /\ UNCHANGED <<cs, verdict>>
+                   /\ phase' = "verify" /\ UNCHANGED <<cs, verdict, valg>>
          [] C = "dagtx-jwk" ->
               IF A.keyhdr \in {"jwk-private", "jwk-private-own"} /\ ~DagAcceptsPrivateJWK THEN Reject
               ELSE /\ key' = (IF A.keyhdr \in {"jwk-attacker", "jwk-private"} THEN "attacker" ELSE "legit")
-                   /\ phase' = "verify" /\ UNCHANGED <<cs, verdict>>
+                   /\ phase' = "verify" /\ UNCHANGED <<cs, verdict, valg>>
          [] C = "dagtx-kid" ->
               IF A.keyhdr \in {"jwk-attacker", "jwk-private"} THEN Reject       \* kid and jwk are mutually exclusive
               ELSE /\ key' = (CASE A.keyref = "other-party" -> "other" [] A.keyref \in AttackerRef -> "attacker" [] OTHER -> "legit")
-                   /\ phase' = "verify" /\ UNCHANGED <<cs, verdict>>
+                   /\ phase' = "verify" /\ UNCHANGED <<cs, verdict, valg>>
          [] C = "apitoken" ->
               IF A.keyhdr # "asvalid" THEN Reject                                \* jwk / jku / x5c / x5u are forbidden
               ELSE /\ key' = (IF A.keyref = "other-party" THEN "other" ELSE "legit")
-                   /\ phase' = "verify" /\ UNCHANGED <<cs, verdict>>
+                   /\ phase' = "verify" /\ UNCHANGED <<cs, verdict, valg>>
          [] OTHER ->   \* vcjwt, vpjwt, jar: resolver(kid); ldproof: resolver(proof.verificationMethod); headers ignored
               /\ key' = (CASE A.keyref = "other-party" -> "other" [] A.keyref \in AttackerRef -> "attacker" [] OTHER -> "legit")
-              /\ phase' = "verify" /\ UNCHANGED <<cs, verdict>>
+              /\ phase' = "verify" /\ UNCHANGED <<cs, verdict, valg>>
 
 \* the signature verifies with the selected key
 SigVerifies ==
@@ -199,9 +223,9 @@ SigVerifies ==
     /\ A.actual = "label"                               \* the verifier uses the algorithm of the protected header
     /\ A.alg \notin {"none", "mac", "otherfam"}
     /\ (A.alg = "sibling" => FALSE)                      \* made with a key of another curve / hash than the selected key allows
-    /\ (Fits(F, A) \/ (CurveBlindES /\ C # "ldproof"))
+    /\ (Fits(F, A) \/ (CurveBlindES /\ C # "ldproof") \/ (C = "ldproof" /\ valg = "label"))   \* the raw jws verifier is curve blind
     /\ (C = "ldproof" => A.enc \notin {"h-pad", "h-noncanon"})   \* verified over the received header text
-    /\ (C = "ldproof" => A.alg # "mismatch")                     \* verifier algorithm = the one derived from the key
+    /\ (valg = "key" => A.alg \notin {"mismatch", "sibfit"})    \* verifier algorithm = the one derived from the key
 Verify == /\ phase = "verify"
           /\ IF SigVerifies THEN Go("bind") ELSE Reject
 
@@ -210,7 +234,7 @@ Bind == /\ phase = "bind"
         /\ IF \/ key = "legit"
               \/ key = "attacker" /\ C \in {"vpjwt", "dagtx-kid"} /\ A.keyref \in AttackerRef      \* signer := DID of the kid
               \/ key = "attacker" /\ C = "dagtx-jwk"                                                \* self-keyed transaction
-           THEN /\ verdict' = "accept" /\ phase' = "done" /\ UNCHANGED <<cs, key>>
+           THEN /\ verdict' = "accept" /\ phase' = "done" /\ UNCHANGED <<cs, key, valg>>
            ELSE Reject   \* vcjwt: kid DID # issuer; jar: key not in the client's key set; dpop: jkt mismatch; apitoken: iss # user
 
 Next == Parse \/ Count \/ Alg \/ SelectKey \/ Verify \/ Bind
@@ -230,10 +254,12 @@ Sound(c, f, a) ==
        \/ a.signer = "attacker" /\ c = "dagtx-jwk" /\ a.keyhdr = "jwk-attacker"                  \* = a genuine self-keyed tx
 MustReject == ~Sound(C, F, A)
 AcceptSound == verdict = "accept" => ~MustReject
+\* the header of a detached JWS never decides how a JSON-LD proof is verified
+LdAlgFromKey == (C = "ldproof" /\ valg # "none") => valg = "key"
 \* non-vacuity: the valid token of every supported consumer/family is accepted
 ValidAccepted == (phase = "done" /\ cs.variant = "valid" /\ FitAlg(C, F) \in Allowed(C)) => verdict = "accept"
 
 Emit == (phase = "done" /\ Gen) =>
-        PrintT(ToJson([consumer |-> C, fam |-> F, variant |-> cs.variant, attrs |-> A, expect |-> verdict,
+        PrintT(ToJson([consumer |-> C, fam |-> F, variant |-> cs.variant, attrs |-> A, expect |-> verdict, algsrc |-> valg,
                        must_reject |-> MustReject, bad |-> (verdict = "accept" /\ MustReject)]))
 =============================================================================
